@@ -8,7 +8,7 @@ R5 ValueSet::record / Span::record visit rules
 import re
 from rulekit import Facts, where, proj_names
 from rulekit.sym import PathEval, show
-from rulekit.query import option_test, recv_fields
+from rulekit.query import option_test, recv_fields, closure_of_term
 from rules import fxlib
 
 FIELD = "tracing_core::field::"
@@ -386,13 +386,47 @@ def r4(ck, F):
 
 
 # ------------------------------------------------------------------ R5
+def PathEvalTerm(body, op):
+    """symbolic term of an operand (closure constants / aggregates included) without enumerating paths"""
+    o = body.origin(op)
+    if o[0] == "agg" and o[1]["agg"].get("closure"):
+        return ("agg", "closure:" + o[1]["agg"]["closure"], None, ())
+    if o[0] == "const" and o[1].get("closure"):
+        return ("const", o[1].get("ty"), None, o[1]["closure"])
+    return ("unknown",)
+
+
 def r5(ck, F):
     b = F.body(FIELD + "ValueSet::<'_>::record") or F.body(FIELD + "ValueSet::<'a>::record")
     if ck.anchor("C10.R5", "ValueSet::record", b):
         rec = [(bb, t) for bb, t in b.calls() if t["callee"].get("trait") == VALUE and t["callee"].get("method") == "record"]
         ok = len(rec) == 1
         why = "expected exactly one value.record(field, visitor) call site in the loop"
-        if ok:
+        crec = [(x, bb, t) for x in F.closures_of(b) for bb, t in x.calls() if t["callee"].get("trait") == VALUE and t["callee"].get("method") == "record"]
+        if not rec and len(crec) == 1:
+            # the same loop written with adaptors: values.iter().filter(|(f, _)| f.callsite() == mine).for_each(|(f, v)| if let Some(v) = v { v.record(f, visitor) })
+            x, xbb, xt = crec[0]
+            ok, why = True, ""
+            fe = [(bb, t) for bb, t in b.calls() if t["callee"].get("method") == "for_each"]
+            if len(fe) != 1 or closure_of_term(PathEvalTerm(b, fe[0][1]["argv"][1])) != x.path:
+                ok, why = False, "the closure that records is not the body of a single for_each over the values"
+            else:
+                src = b.origin(fe[0][1]["argv"][0])
+                filt = src if src[0] == "call" and src[2]["callee"].get("method") == "filter" else None
+                if filt is None:
+                    ok, why = False, "for_each is not applied to values.iter().filter(same callsite)"
+                else:
+                    fc = closure_of_term(PathEvalTerm(b, filt[2]["argv"][1]))
+                    fb = F.body(fc) if fc else None
+                    rets = {show(p.ret) for p in PathEval(fb).run() if p.end == "return"} if fb else set()
+                    if not (len(rets) == 1 and list(rets)[0].startswith("eq(") and "callsite" in list(rets)[0]):
+                        ok, why = False, "the filter predicate is %s, expected field.callsite() == self.callsite()" % sorted(rets)
+            if ok:
+                for p in PathEval(x).run():
+                    if xbb in p.blocks and not any(option_test(c)[1] is True for c in p.conds if c[0][0] == "discr"):
+                        ok, why = False, "a value is visited without the Some test"
+            rec = []
+        if ok and rec:
             rbb = rec[0][0]
             # on every acyclic path reaching the call: callsite equality test true and the value is Some
             ev = PathEval(b)
